@@ -279,7 +279,10 @@ def complex_add(document, cls, tags):
     _ext_elements = dict()
     for k,v in deferred:
         attribute = etree.Element(XSD('attribute'))
-        xml_attribute_add(v, k, attribute, document)
+        name = v.Attributes.sub_name
+        if name is None:
+            name = k
+        xml_attribute_add(v, name, attribute, document)
 
         if cls.Attributes._xml_tag_body_as is None:
             sequence_parent.append(attribute)
